@@ -6,8 +6,14 @@ V = os.path.dirname(os.path.dirname(os.path.abspath(__file__)))
 sys.path.insert(0, os.path.join(V, "rules"))
 from thorough import scratch_copy  # noqa: E402
 name = sys.argv[1]
+patch = os.path.join(V, "neutral", name, "patch.diff")
+if not os.path.exists(patch):
+    # a seeded change: seeded/<name>/patch_current.diff (rebased) or patch.diff
+    patch = os.path.join(V, "seeded", name, "patch_current.diff")
+    if not os.path.exists(patch):
+        patch = os.path.join(V, "seeded", name, "patch.diff")
 dst = scratch_copy("work-" + name)
-r = subprocess.run(["git", "apply", os.path.join(V, "neutral", name, "patch.diff")], cwd=dst, capture_output=True, text=True)
+r = subprocess.run(["git", "apply", patch], cwd=dst, capture_output=True, text=True)
 if r.returncode != 0:
     sys.exit("patch does not apply: " + r.stderr)
 print(dst)
